@@ -158,6 +158,7 @@ func renameTargets(src string, configured map[string]bool) []renameTarget {
 		switch {
 		case localRe.MatchString(n):
 			isLocal, isMethod, bad := paramNames[n], false, false
+			isSetter, bareUse := false, false
 			for _, o := range os {
 				switch {
 				case strings.HasSuffix(o.prev, ":") && !strings.HasSuffix(o.prev, "::") && !strings.HasSuffix(o.prev, ": "): // :sym
@@ -175,9 +176,20 @@ func renameTargets(src string, configured map[string]bool) []renameTarget {
 				case strings.TrimSpace(o.next) == "=" || strings.TrimSpace(o.next) == "+=" || strings.TrimSpace(o.next) == "-=" || strings.TrimSpace(o.prev) == "|" || strings.TrimSpace(o.next) == "|":
 					isLocal = true
 				}
-				if strings.HasPrefix(o.next, "=") && strings.TrimSpace(o.prev) == "def" {
-					bad = true // def x=(v)
+				if strings.HasPrefix(o.next, "=") && !strings.HasPrefix(o.next, "==") && strings.TrimSpace(o.prev) == "def" {
+					isSetter = true // def x=(v)
 				}
+				if tp := strings.TrimSpace(o.prev); tp != "def" && tp != "." && tp != "&." {
+					bareUse = true
+				}
+			}
+			if isSetter {
+				// a setter (attribute) is renameable when the name is only ever defined or called with a receiver
+				if bad || bareUse || paramNames[n] {
+					continue
+				}
+				out = append(out, renameTarget{n, "method"})
+				continue
 			}
 			if bad || (isLocal && isMethod) {
 				continue
